@@ -32,9 +32,11 @@ def norm(t):
     return re.sub(r'<[A-Za-z]+:(?!:)[^>]*>', '', t).replace('gdstk::', '')
 
 
-def check_writers(ctx, db):
+def check_writers(ctx, db, only=None):
     nrec = 0
     for qn, nt in WRITER_NT:
+        if only is not None and qn not in only:
+            continue
         f = db.fn(qn)
         ctx.touch(f)
         atoms, res = G.interpret(f)
@@ -54,6 +56,9 @@ def check_writers(ctx, db):
                   'emitted record string is not in the grammar of %s: under %s the writer emits `%s` (shortest offending string: %s)' % ((nt,) + bad[0] if bad else (nt, '', '', '')))
         ctx.check(not issues, 'R-RECORD', '%s/records' % label, f.loc(), 'every record has the specification\'s data type/length, headers and payloads are byte-swapped exactly once with the right width, sizes agree',
                   '; '.join(sorted(issues))[:600])
+    if only is not None:
+        ctx.require('decoded records', nrec, 3)
+        return
     ctx.require('decoded records', nrec, 100)
     # composition of the incremental writer
     comp = R.seq(G.GRAMMAR['N_stream_prefix'], R.star(R.tok('N_structure')), G.GRAMMAR['N_stream_suffix'])
@@ -189,51 +194,121 @@ def check_reader_state(ctx, db):
 
 
 def check_xy_continuation(ctx, db):
+    """The XY arm of read_gds, interpreted (sa/minieval: struct objects, a `double*` view of a Vec2 array, the coordinate loops as
+    written - also when they live in a helper or a local lambda) on records of 1, 2 and 5 points for a BOUNDARY with 0 or 3 points
+    already loaded and for a PATH whose spine is empty or already started. Array::ensure_slots / append / clear, Curve::append and
+    FlexPath::segment are answered by the harness, which records what they are handed. Required: a BOUNDARY ends up with the
+    points it had followed by all points of the record, scaled by `factor` (so a boundary split over several XY records
+    re-loads completely); the first XY record of a PATH gives the start point to the spine with half of WIDTH as the first
+    width entry and hands the remaining points to segment(); a continuation record hands all of its points to segment()."""
+    from .. import minieval as M
+    from fractions import Fraction
     f = db.fn('gdstk::read_gds')
+    ctx.touch(f)
     sw = record_switch(f)
     names = {c['v']: c['n'] for c in db.enum('gdstk::GdsiiRecord')['consts']}
-    xy = next((stmts for labels, stmts, top in tables.switch_arms(sw) if any(names.get(l) == 'XY' for l in labels)), None)
-    if xy is None:
+    got = next(((stmts, top) for labels, stmts, top in tables.switch_arms(sw) if any(names.get(l) == 'XY' for l in labels)), None)
+    if got is None:
         raise AnalysisBroken('read_gds: XY arm not found')
-    top = xy[0]
-    poly = top.child('then')
-    pathif = top.child('else')
-    ok = norm(top.child('cond').text()) == 'polygon' and pathif is not None and norm(pathif.child('cond').text()) == 'path'
-    if not ok:
-        ctx.violation('R-CLONE', 'read_gds/XY-arm-shape', top.loc(), 'XY arm is not `if (polygon) ... else if (path) ...`')
-        return
-    inner = next((i for i in pathif.child('then').c if i is not None and i.k == 'IfStmt'), None)
-    cont = inner.child('else') if inner is not None else None
-    first = inner.child('then') if inner is not None else None
-    sub = [(r'gdstk::', ''), (r'<[A-Za-z]+:(?!:)[^>]*>', ''), (r'v\d+->point_array', 'ARR'), (r'polygon->point_array', 'ARR'), (r'\(double \*\)\(ARR\.items \+ ARR\.count\)', '(double *)ARR.items')]
+    xy, top = got
+    factor, width = Fraction(1, 4), 6
+    problems = {'BOUNDARY': [], 'PATH-first': [], 'PATH-continuation': []}
+    runs = 0
 
-    def body(b, is_poly):
-        ren = clone.Renamer(f)
-        t = clone.canon(b, f, subst=sub, ren=ren)
-        t = re.sub(r'\bv\d+\b', 'V', t)
-        t = t.replace('V.ensure_slots', 'ARR.ensure_slots').replace('(V.count +=', '(ARR.count +=').replace('(double *)V.items', '(double *)ARR.items')
-        return t
-    a, b = body(poly, True), body(cont, False)
-    d = clone.first_diff(a, b)
-    ctx.check(d is None, 'R-CLONE', 'read_gds/XY:polygon~path-continuation', cont.loc() if cont is not None else top.loc(), 'a continuation XY record of a PATH is decoded exactly like a BOUNDARY XY record (all points from the start of the payload)',
-              None if d is None else 'PATH continuation XY block differs from the BOUNDARY XY block at line %d: `%s` vs `%s`' % d)
-    # both blocks APPEND: the write cursor starts at items + count and the count grows by the number of points of this record
-    for lab, blk in (('BOUNDARY', poly),):
-        t = norm(' '.join(x.text() for x in blk.walk() if x.k == 'VarDecl' and x.child('init') is not None and 'items' in x.child('init').text()) + ' ' + ' '.join(x.text() for x in blk.walk() if x.k == 'CompoundAssignOperator' or is_assign(x)))
-        app = re.search(r'\(double \*\)\((\S+)\.items \+ \1\.count\)', t) is not None and re.search(r'\.count \+= \(data_length / 2\)', t) is not None and re.search(r'\.count = ', t) is None
-        ctx.check(app, 'R-SHAPE', 'read_gds/XY:%s-appends' % lab, blk.loc(), 'points of an XY record are appended after those already loaded (a boundary with more than 8190 points spans several XY records)',
-                  'the %s XY block does not append (cursor at items + count, count += points): a later XY record of the same element overwrites the earlier ones' % lab)
-    seg = [c for c in pathif.child('then').walk() if c.k == 'CXXMemberCallExpr' and (c.callee or '').endswith('FlexPath::segment')]
-    ctx.check(len(seg) == 1 and seg[0].pos > cont.pos and norm(seg[0].args[0].text()).endswith('point_array') or (len(seg) == 1 and 'point_array' in norm(seg[0].args[0].text())), 'R-SHAPE', 'read_gds/XY:PATH-appends', pathif.loc(), 'the points of every PATH XY record are appended to the spine through FlexPath::segment')
-    # first record: first point -> spine.append + width entry, rest from data32 + 2
-    keep = {}
-    for v in f.walk():
-        if v.k == 'VarDecl' and v.n in ('data32', 'data_length', 'width', 'factor'):
-            keep[v.d] = v.n
-    base = clone.Renamer(f)
-    t = norm(clone.canon(first, f, ren=lambda n: keep.get(n.d) or base(n)))
-    ok = 'data32[0]' in t and 'data32[1]' in t and re.search(r'int32_t \* v\d+ = \(data32 \+ 2\)', t) is not None and '(data_length - 2)' in t and '((data_length / 2) - 1)' in t and '(width / 2)' in t
-    ctx.check(ok, 'R-SHAPE', 'read_gds/XY:path-first-record', first.loc() if first is not None else top.loc(), 'the first XY record of a PATH gives the start point (with half of WIDTH) and the remaining points from the third word on')
+    def vecs(ptr, n):
+        return [(ptr.arr[ptr.i + k].get('x'), ptr.arr[ptr.i + k].get('y')) for k in range(n)] if isinstance(ptr, M.Ptr) else []
+
+    for npts in (1, 2, 5):
+        data = [10 * k + (3 if k % 2 else 1) for k in range(2 * npts)]
+        want_all = [(factor * data[2 * k], factor * data[2 * k + 1]) for k in range(npts)]
+        for case in ('BOUNDARY:0', 'BOUNDARY:3', 'PATH:0', 'PATH:2'):
+            kind, have = case.split(':')
+            have = int(have)
+            runs += 1
+            log = {'segment': [], 'spine': [], 'hw': []}
+            old = [M.Obj(x=100 + k, y=200 + k) for k in range(have)]
+            mi_ref = [None]
+
+            def grow(arr_obj, n):
+                it = arr_obj.get('items', 0)
+                cnt = arr_obj.get('count', 0)
+                lst = list(it.arr[it.i:it.i + cnt]) if isinstance(it, M.Ptr) else []
+                lst += [M.Obj() for _ in range(n)]
+                mi_ref[0].writable.add(id(lst))
+                arr_obj['items'] = M.Ptr(lst, 0)
+                arr_obj['capacity'] = len(lst)
+
+            def hook(callee, args, node):
+                short = (callee or '').split('::')[-1]
+                cls = (callee or '').rsplit('::', 1)[0]
+                if cls.startswith('gdstk::Array<') and short in ('ensure_slots', 'append', 'append_unsafe', 'clear'):
+                    o = mi_ref[0].call_object()
+                    if not isinstance(o, M.Obj):
+                        raise AnalysisBroken('read_gds/XY: Array method on something that is not an array object')
+                    if short == 'ensure_slots':
+                        grow(o, args[0])
+                    elif short == 'clear':
+                        o['items'], o['count'], o['capacity'] = 0, 0, 0
+                    else:
+                        if o.get('capacity', 0) < o.get('count', 0) + 1:
+                            grow(o, 1)
+                        o['items'].arr[o['count']] = M.Obj(args[0]) if isinstance(args[0], M.Obj) else args[0]
+                        o['count'] += 1
+                        if o.get('_tag') == 'hw':
+                            log['hw'].append((args[0].get('x'), args[0].get('y')))
+                    return (None,)
+                if callee == 'gdstk::Curve::append':
+                    log['spine'].append((args[0].get('x'), args[0].get('y')))
+                    o = mi_ref[0].call_object()
+                    if isinstance(o, M.Obj) and isinstance(o.get('point_array'), M.Obj):
+                        o['point_array']['count'] = o['point_array'].get('count', 0) + 1
+                    return (None,)
+                if callee == 'gdstk::FlexPath::segment':
+                    a0 = args[0]
+                    log['segment'].append(vecs(a0.get('items', 0), a0.get('count', 0)) if isinstance(a0, M.Obj) else None)
+                    return (None,)
+                return None
+            mi = M.Mini(db, hook=hook, budget=50000)
+            mi.obj_store = True
+            mi_ref[0] = mi
+            env = {'data32': M.Ptr(list(data), 0), 'data_length': 2 * npts, 'factor': factor, 'width': width, 'tolerance': Fraction(1, 100),
+                   'polygon': 0, 'path': 0, 'reference': 0, 'label': 0}
+            if kind == 'BOUNDARY':
+                pa = M.Obj(capacity=have, count=have, items=M.Ptr(old, 0) if have else 0)
+                mi.writable.add(id(old))
+                env['polygon'] = M.Obj(point_array=pa)
+            else:
+                el0 = M.Obj(half_width_and_offset=M.Obj(capacity=0, count=0, items=0, _tag='hw'))
+                env['path'] = M.Obj(spine=M.Obj(point_array=M.Obj(capacity=have, count=have, items=M.Ptr(old, 0) if have else 0), tolerance=0), elements=M.Ptr([el0], 0))
+            try:
+                for st in xy:
+                    mi.run(st, env)
+            except (M._Break, M.Return):
+                pass
+            except M.OutOfBounds as ex:
+                problems[kind if kind == 'BOUNDARY' else ('PATH-first' if not have else 'PATH-continuation')].append('%d-point record: %s' % (npts, ex))
+                continue
+            if kind == 'BOUNDARY':
+                pa = env['polygon']['point_array']
+                now = vecs(pa.get('items', 0), pa.get('count', 0))
+                want = [(100 + k, 200 + k) for k in range(have)] + want_all
+                if now != want:
+                    problems['BOUNDARY'].append('a boundary holding %d points reads a %d-point XY record and then holds %s, expected the %d old points followed by %s' % (have, npts, now, have, want_all))
+            elif have == 0:
+                if log['spine'] != want_all[:1] or log['hw'] != [(Fraction(width, 2), 0)] or log['segment'] != [want_all[1:]]:
+                    problems['PATH-first'].append('first %d-point XY record of a path: spine gets %s, width entry %s, segment() gets %s; expected start point %s, entry (width/2, 0), rest %s' % (npts, log['spine'], log['hw'], log['segment'], want_all[:1], want_all[1:]))
+            else:
+                if log['spine'] or log['hw'] or log['segment'] != [want_all]:
+                    problems['PATH-continuation'].append('a further %d-point XY record of a path: spine gets %s, width entries %s, segment() gets %s; expected all %d points through segment()' % (npts, log['spine'], log['hw'], log['segment'], npts))
+    ctx.explored['valuations'] += runs
+    ctx.check(not problems['BOUNDARY'], 'R-SHAPE', 'read_gds/XY:BOUNDARY-appends', top.loc(), 'points of an XY record are appended after those already loaded (a boundary with more than 8190 points spans several XY records)',
+              'the BOUNDARY XY block is wrong: ' + '; '.join(problems['BOUNDARY'][:2]))
+    ctx.check(not problems['PATH-continuation'], 'R-CLONE', 'read_gds/XY:polygon~path-continuation', top.loc(), 'a continuation XY record of a PATH is decoded like a BOUNDARY XY record (all points from the start of the payload) and appended through FlexPath::segment',
+              'PATH continuation XY block is wrong: ' + '; '.join(problems['PATH-continuation'][:2]))
+    ctx.check(not problems['PATH-continuation'] and not problems['PATH-first'], 'R-SHAPE', 'read_gds/XY:PATH-appends', top.loc(), 'the points of every PATH XY record are appended to the spine through FlexPath::segment')
+    ctx.check(not problems['PATH-first'], 'R-SHAPE', 'read_gds/XY:path-first-record', top.loc(), 'the first XY record of a PATH gives the start point (with half of WIDTH) and the remaining points from the third word on',
+              'the first PATH XY block is wrong: ' + '; '.join(problems['PATH-first'][:2]))
+    ctx.require('R-SHAPE XY arm cases interpreted', runs, 12)
 
 
 def check_element_buffers(ctx, db):
